@@ -479,6 +479,17 @@ func ladder(kind int, depth int) []byte {
 			}
 		}
 		b = append(b, 0x45)
+	case 8: // untyped fixed-length lists, each declaring 2048 elements and holding the next as its first element
+		for i := 0; i < depth; i++ {
+			b = append(b, 0x58, 'I', 0x00, 0x00, 0x08, 0x00)
+		}
+		b = append(b, 0x90)
+	case 9: // the same with typed lists (type literal first, back-reference afterwards)
+		b = append(b, 'V', 0x05, '[', 'N', 'o', 'd', 'e', 'I', 0x00, 0x00, 0x08, 0x00)
+		for i := 1; i < depth; i++ {
+			b = append(b, 'V', 0x90, 'I', 0x00, 0x00, 0x08, 0x00)
+		}
+		b = append(b, 'N')
 	case 4: // class definition + instance with a self-typed field
 		b = append(b, 'C', 0x04, 'N', 'o', 'd', 'e', 0x92, 0x01, 'v', 0x04, 'n', 'e', 'x', 't')
 		for i := 0; i < depth; i++ {
@@ -569,7 +580,7 @@ func blockedFor(fn func()) (blocked bool, state string) {
 //go:noinline
 func c14probe(fn func()) { fn() }
 
-var ladderNames = []string{"x79 lists", "x57 lists", "H maps", "typed lists", "objects with a self-typed field", "x79 lists ending in an unknown tag", "x57 lists ending in an unknown tag", "H maps ending in an unknown tag"}
+var ladderNames = []string{"x79 lists", "x57 lists", "H maps", "typed lists", "objects with a self-typed field", "x79 lists ending in an unknown tag", "x57 lists ending in an unknown tag", "H maps ending in an unknown tag", "x58 lists each declaring 2048 elements", "V typed lists each declaring 2048 elements"}
 
 func init() {
 	core.Register(&core.Prop{
@@ -902,6 +913,52 @@ func init() {
 				}
 				c.Cover("long-lists-foreign-element")
 			}})
+			// a class with very many fields, instantiated many times in a row or nested (cost per instance must not
+			// be the declared field count when the input ends right after the instance tag)
+			us = append(us, core.Unit{Name: "wide-class-deep", Cost: 100, Run: func(c *core.Ctx) {
+				str := func(s string) []byte { return append([]byte{byte(len(s))}, s...) }
+				tm := map[string]reflect.Type{"Node": reflect.TypeOf(zoo.Node{})}
+				for _, shape := range []string{"nested through the first field", "nested through the last field", "list of instances"} {
+					for _, fields := range []int{1, 10, 100, 1000, 4000, 12000} {
+						for _, depth := range []int{1, 10, 100, 1000, 4000, 12000, 30000} {
+							if fields*3+depth > 66000 {
+								continue
+							}
+							if !c.Begin() {
+								continue
+							}
+							c.NontrivialN(1)
+							c.Res.States++
+							b := append(append([]byte{'C'}, str("Node")...), be32(int32(fields+1))...)
+							if shape != "nested through the last field" {
+								b = append(b, str("next")...)
+							}
+							for i := 0; i < fields; i++ {
+								b = append(b, 0x02, 'a'+byte(i%26), 'a'+byte(i/26%26))
+							}
+							if shape == "nested through the last field" {
+								b = append(b, str("next")...)
+							}
+							if shape == "list of instances" {
+								b = append(b, 0x57)
+							}
+							for i := 0; i < depth; i++ {
+								b = append(b, 0x60)
+							}
+							desc := fmt.Sprintf("class with %d fields, %d instance tags %s, input ends there (%d bytes)", fields+1, depth, shape, len(b))
+							out := runHostile(c, 0, b, guard.NewReader(b), tm, desc, "wide-class-deep", true)
+							c.Outcome(out)
+							if out == "returned" {
+								out = runHostile(c, 2, b, nil, tm, desc+" (ToObject)", "wide-class-deep", true)
+							}
+							if out != "returned" {
+								break
+							}
+						}
+					}
+				}
+				c.Cover("wide-class-deep")
+			}})
 			// fan-in: many fields / elements refer to one earlier container
 			us = append(us, core.Unit{Name: "fan-in", Cost: 100, Run: func(c *core.Ctx) {
 				str := func(s string) []byte { return append([]byte{byte(len(s))}, s...) }
@@ -1002,7 +1059,7 @@ func init() {
 			return us
 		},
 		RequireCover: func(string) []string {
-			return []string{"lazy-full", "lazy-tags", "edit", "amplification", "ladder", "cycles", "dags", "name-flood", "bracket-names", "fan-in", "long-lists-foreign-element"}
+			return []string{"lazy-full", "lazy-tags", "edit", "amplification", "ladder", "cycles", "dags", "name-flood", "bracket-names", "fan-in", "long-lists-foreign-element", "wide-class-deep"}
 		},
 	})
 }
